@@ -71,6 +71,14 @@ theorem advanceAcc_lastSent (cfg : Config) (a : Acc) (b : Blk) (fi : Option Entr
               (withFirst fi (a.st.db.hasNewIrreversibleSegment cfg.fsb _).2.1) b.ref (fun i => (a.st.db.find i).map (·.blk))
             rw [hs]; rfl
 
+/-- how one `ProcessBlock` changes the buffer: not at all; or the block is appended, sent marks change, and possibly the
+    LIB moves up to a stored block `R` (whose reference carries its real, higher number) followed by the purge -/
+def DbShape (cfg : Config) (s : FState) (b : Blk) (s' : FState) : Prop :=
+  (s'.db = s.db ∧ (b.id = b.parent ∨ (b.num < s.db.libRef.num ∧ s.lastSent.isSome = true) ∨ (s.db.addLink b).2 = true)) ∨
+  (s.db.find b.id = none ∧ ∃ db2, SameBlks (appendBlk s.db b) db2 ∧
+    (s'.db = db2 ∨ ∃ R er, s'.db = (db2.moveLIB R).purgeBeforeLIB cfg.kept ∧ db2.find R.id = some er ∧
+      er.blk.num = R.num ∧ db2.libRef.num < R.num))
+
 /-- **one incoming block**: the events delivered for it are accepted by the push/pop consumer, which ends on the
     pending chain of the new state; and the invariant holds again. -/
 theorem processBlock_step (cfg : Config) (hnew : cfg.matches .new = true) (hundo : cfg.matches .undo = true)
@@ -83,10 +91,17 @@ theorem processBlock_step (cfg : Config) (hnew : cfg.matches .new = true) (hundo
        (s.db.find b.id = none ∧ triggers cfg s b = true ∧
           ∃ l, (processBlock cfg s b none).1.lastSent = some l ∧ l.ref = b.ref)) ∧
       (∀ (U : Id → Option Blk) (F : List Id), UOK U → Inv2 U F s.db → U b.id = some b →
-        ∃ F', Inv2 U F' (processBlock cfg s b none).1.db) := by
+        ∃ F', Inv2 U F' (processBlock cfg s b none).1.db) ∧
+      DbShape cfg s b (processBlock cfg s b none).1 := by
   unfold processBlock
-  rcases plan_cases cfg s b hI.noInit hI.libNe with ⟨r, hr⟩ | ⟨hex, _, hnotdrop, u, rd, j, hsw, hpl⟩
-  · rw [hr]; exact ⟨P, rfl, hI, Or.inl ⟨rfl, rfl⟩, fun U F _ hJ _ => ⟨F, hJ⟩⟩
+  rcases plan_cases cfg s b hI.noInit hI.libNe with ⟨⟨r, hr⟩, hwhy⟩ | ⟨hex, _, hnotdrop, u, rd, j, hsw, hpl⟩
+  · rw [hr]
+    refine ⟨P, rfl, hI, Or.inl ⟨rfl, rfl⟩, fun U F _ hJ _ => ⟨F, hJ⟩, Or.inl ⟨rfl, ?_⟩⟩
+    rcases hwhy with h | h | h | h
+    · exact Or.inl h
+    · exact Or.inr (Or.inl h)
+    · exact absurd h (switchSegments_ne_none cfg s b _)
+    · exact Or.inr (Or.inr h)
   obtain ⟨hf, hadd⟩ := fresh_of_addLink s.db b hI.wf hb hex
   have hJ1 : ∀ (U : Id → Option Blk) (F : List Id), Inv2 U F s.db → U b.id = some b → Inv2 U F (appendBlk s.db b) := by
     intro U F hJ hbU
@@ -104,13 +119,15 @@ theorem processBlock_step (cfg : Config) (hnew : cfg.matches .new = true) (hundo
   rw [hpl, planLinked_hasLIB cfg _ b _ u rd j hlibT, hal]
   cases hc : computeLongestChain cfg { s with db := appendBlk s.db b } b with
   | none =>
-    refine ⟨P, rfl, inv_afterLink s P b none hI hb hB hf ?_, Or.inl ⟨rfl, rfl⟩, fun U F _ hJ hbU => ⟨F, hJ1 U F hJ hbU⟩⟩
+    refine ⟨P, rfl, inv_afterLink s P b none hI hb hB hf ?_, Or.inl ⟨rfl, rfl⟩, fun U F _ hJ hbU => ⟨F, hJ1 U F hJ hbU⟩,
+      Or.inr ⟨hf, _, SameBlks.refl _, Or.inl rfl⟩⟩
     intro c cs h; cases h
   | some lc =>
     obtain ⟨hp, hn, hfa, htop, hlast⟩ := compute_chain_path cfg s P b hI hb hB hf lc hc
     cases lc with
     | nil =>
-      refine ⟨P, rfl, inv_afterLink s P b (some []) hI hb hB hf ?_, Or.inl ⟨rfl, rfl⟩, fun U F _ hJ hbU => ⟨F, hJ1 U F hJ hbU⟩⟩
+      refine ⟨P, rfl, inv_afterLink s P b (some []) hI hb hB hf ?_, Or.inl ⟨rfl, rfl⟩, fun U F _ hJ hbU => ⟨F, hJ1 U F hJ hbU⟩,
+        Or.inr ⟨hf, _, SameBlks.refl _, Or.inl rfl⟩⟩
       intro c cs h; cases h
     | cons c0 cs0 =>
       have hcok : CacheOK { s with db := appendBlk s.db b, cache := some (c0 :: cs0) } := by
@@ -120,7 +137,8 @@ theorem processBlock_step (cfg : Config) (hnew : cfg.matches .new = true) (hundo
         exact ⟨hp, hn, hfa⟩
       have hI1 := inv_afterLink s P b (some (c0 :: cs0)) hI hb hB hf hcok
       cases htr : triggers cfg s b with
-      | false => exact ⟨P, rfl, hI1, Or.inl ⟨rfl, rfl⟩, fun U F _ hJ hbU => ⟨F, hJ1 U F hJ hbU⟩⟩
+      | false => exact ⟨P, rfl, hI1, Or.inl ⟨rfl, rfl⟩, fun U F _ hJ hbU => ⟨F, hJ1 U F hJ hbU⟩,
+          Or.inr ⟨hf, _, SameBlks.refl _, Or.inl rfl⟩⟩
       | true =>
         simp only [if_true]
         rw [htr] at hsw
@@ -200,7 +218,7 @@ theorem processBlock_step (cfg : Config) (hnew : cfg.matches .new = true) (hundo
             rw [hfb]; exact hL e1 hfe
         obtain ⟨haf, han, t, Q', hevs, hrun, hI3, hdbcase⟩ :=
           advance_inv cfg hirr a hef hen b _ hI2 eb.blk hlastSent hcr hlibok
-        refine ⟨Q', ?_, hI3, Or.inr ⟨hf, (by first | rfl | trivial), eb.blk, ?_, heblast.1⟩, ?_⟩
+        refine ⟨Q', ?_, hI3, Or.inr ⟨hf, (by first | rfl | trivial), eb.blk, ?_, heblast.1⟩, ?_, ?_⟩
         · show (⟨s.db.libRef.id, P⟩ : CS).run (finish (advanceAcc cfg a b none)).2.1 = _
           have : (finish (advanceAcc cfg a b none)).2.1 = a.evs ++ t := hevs
           rw [this, run_append, ← hs3lib, herun]
@@ -222,5 +240,10 @@ theorem processBlock_step (cfg : Config) (hnew : cfg.matches .new = true) (hundo
           rcases hdbcase with hsame' | ⟨R, er, hdb', hfer, hnumR, hup⟩
           · exact ⟨F, by rw [hsame']; exact hJ2⟩
           · exact ⟨F ++ [R.id], by rw [hdb']; exact inv2_movePurge U hU F a.st.db hI2.wf hJ2 R cfg.kept er hfer hnumR hup⟩
+        · show DbShape cfg s b (finish (advanceAcc cfg a b none)).1
+          refine Or.inr ⟨hf, a.st.db, by rw [← hs3db]; exact hsame, ?_⟩
+          rcases hdbcase with hsame' | ⟨R, er, hdb', hfer, hnumR, hup⟩
+          · exact Or.inl hsame'
+          · exact Or.inr ⟨R, er, hdb', hfer, hnumR, hup⟩
 
 end BstreamVerif.Forkable
